@@ -47,6 +47,8 @@ theorem stepOp_sim {tick : Bool} {w : World} (hw : WheelInv w) (hs : Sim tick w)
       rw [hv]; exact this
   | err => exact Sim.emit (w := w) rfl hs
   | info => exact Sim.emit rfl (sim_info hw hs)
+  | reload => exact Sim.emit (w := w) rfl (sim_reload hs self)
+  | usage => exact Sim.emit (w := w) rfl hs
 
 theorem stepOp_alive {w : World} (self : Nat) (op : Op) (halive : isDead w self = false)
     (hstop : (stepOp w self op).stop = false) : isDead (stepOp w self op).w self = false := by
@@ -77,6 +79,8 @@ theorem stepOp_alive {w : World} (self : Nat) (op : Op) (halive : isDead w self 
       exact fun h => hne h.symm
   | err => exact halive
   | info => exact halive
+  | reload => exact halive
+  | usage => exact halive
 
 theorem runOps_sim {tick : Bool} {w : World} (hw : WheelInv w) (hs : Sim tick w) (self : Nat) (ops : List Op)
     (halive : isDead w self = false) : Sim tick (runOps w self ops).1 := by
@@ -178,14 +182,15 @@ theorem fireOne_sim (sc : Scripts) {w : World} (hw : WheelInv w) (hs : Sim true 
           { jstate w.out with pend := rest' } := by
         simp only [judgeStep, hs.inTick, if_true, hmin, hnotearly, if_false, hwant, isDeadJ_eq hs, hdead', hro,
           Bool.false_eq_true, beq_self_eq_true]
-      have hs1 : Sim true (emit { setSlot w (slotOf w.cot) rest with giver := liveGiver w cop.c.giver }
+      have hs1 : Sim true (emit { setSlot w (slotOf w.cot) rest with giver := liveGiver w cop.c.giver, busy := 1 }
           (.fire (vnow w) cop.c.owner cop.c.fn cop.c.tag (liveGiver w cop.c.giver))) := by
         refine Sim.emit (w := w) rfl ?_
         rw [hj]
         exact (SimJ.remove_pair hw hs hcum (by simp) hro).congr rfl rfl rfl rfl rfl
-      exact runOps_sim (w := emit { setSlot w (slotOf w.cot) rest with giver := liveGiver w cop.c.giver }
+      have hrun := runOps_sim (w := emit { setSlot w (slotOf w.cot) rest with giver := liveGiver w cop.c.giver, busy := 1 }
           (.fire (vnow w) cop.c.owner cop.c.fn cop.c.tag (liveGiver w cop.c.giver)))
-        (h1.inv.congr rfl rfl rfl rfl) hs1 _ _ hdead'
+        (h1.inv.congr rfl rfl rfl rfl) hs1 cop.c.owner (sc cop.c.owner cop.c.tag) hdead'
+      exact SimJ.congr hrun rfl rfl rfl rfl rfl
 
 theorem visit_sim (sc : Scripts) (tm : Nat) : ∀ (fuel : Nat) (w : World), WheelInv w → w.cot ≠ 0 →
     tm = slotOf w.cot → (∃ cop rest, w.slots tm = cop :: rest ∧ cop.delta = 0) → Sim true w →
@@ -196,7 +201,7 @@ theorem visit_sim (sc : Scripts) (tm : Nat) : ∀ (fuel : Nat) (w : World), Whee
   | succ fuel ih =>
     intro w h h0 htm ⟨cop, rest, hl, hz⟩ hs
     unfold visit
-    simp only [hl]
+    simp only [hl, tie_nextDue]
     have hcum : cum 0 (w.slots tm) = (0, cop.c) :: cum 0 rest := by rw [hl]; exact cum_pop_zero _ _ hz
     have h1 : StepOK w (setSlot w tm rest) :=
       StepOK.setSlot_sublist h tm rest (by rw [hcum]; exact List.sublist_cons_self _ _)
